@@ -60,6 +60,7 @@ type bscenario struct {
 	special bool    // overlapping or truncated groups: the batch's group may differ from the single-point one
 	times   []int64 // interesting timestamps
 	liveT   []int64 // timestamps a live group covers
+	stored  []*storedRow // rows the scenario's batches stored (not aborted), for the read-side spec
 }
 
 // bmeta: the writer's view of the catalogue. Only what routeAndMapOriginRows reaches is
@@ -670,6 +671,9 @@ func (sc *bscenario) runBatch(c *hx.Ctx, r *hx.Rng) {
 			continue
 		}
 		msts[b.mst], groups[g.ID] = true, true
+		if len(sc.stored) < 200 {
+			sc.stored = append(sc.stored, &storedRow{mst: b.mst, t: b.t, tags: b.tags, gid: g.ID, sid: ids[i]})
+		}
 		tt := time.Unix(0, b.t)
 		if tt.Before(g.StartTime) || !tt.Before(g.EndTime) || g.Deleted() {
 			c.Violation(line, "group_does_not_cover", fmt.Sprintf("row %d t=%d in group %d [%d,%d) deleted=%v", i, b.t, g.ID, ns(g.StartTime), ns(g.EndTime), g.Deleted()))
